@@ -181,12 +181,13 @@ theorem admit_count (c : Core) : ∀ (gpus : List Gpu) (i : Nat) (ws : List Nat)
   | cons g rest ih =>
     intro i ws
     rw [admit]
-    by_cases hadm : g.free < admitNeed c g.minimum (if ws.isEmpty then c.gzo else 0)
+    by_cases hadm : admitReject c g (if ws.isEmpty then c.gzo else 0) = true
     · simp only [hadm, ↓reduceIte]
       have := ih (i + 1) ws
       simp only [sumCount, List.map_cons, List.sum_cons] at this ⊢
       omega
-    · simp only [hadm, ↓reduceIte]
+    · simp only [Bool.not_eq_true] at hadm
+      simp only [hadm, Bool.false_eq_true, ↓reduceIte]
       have := ih (i + 1) (ws ++ [i])
       simp only [sumCount, List.map_cons, List.sum_cons] at this ⊢
       omega
@@ -199,9 +200,10 @@ theorem admit_free (c : Core) : ∀ (gpus : List Gpu) (i : Nat) (ws : List Nat),
   | cons g rest ih =>
     intro i ws
     rw [admit]
-    by_cases hadm : g.free < admitNeed c g.minimum (if ws.isEmpty then c.gzo else 0)
+    by_cases hadm : admitReject c g (if ws.isEmpty then c.gzo else 0) = true
     · simp only [hadm, ↓reduceIte, List.map_cons, ih (i + 1) ws]
-    · simp only [hadm, ↓reduceIte, List.map_cons, ih (i + 1) (ws ++ [i])]
+    · simp only [Bool.not_eq_true] at hadm
+      simp only [hadm, Bool.false_eq_true, ↓reduceIte, List.map_cons, ih (i + 1) (ws ++ [i])]
 
 theorem resolve_length : ∀ (bl : List (Option Nat × Nat)) (prev : Nat),
     (resolve prev bl).length = bl.length := by
@@ -294,9 +296,10 @@ def OkG (c : Core) (s : GS) : Prop :=
   (s.alloc = 0 ∧ s.count = 0) ∨
   (s.alloc + c.maxg + c.overhead ≤ s.free ∧ (0 < s.count → s.alloc + c.maxg + c.overhead < s.free))
 
-/-- no sum the estimator forms for this GPU and this layer size reaches 2^64 -/
+/-- no sum the estimator forms for this GPU and this layer size reaches 2^64
+    (in variant C16-W1 the overhead is not part of any sum) -/
 def Room (c : Core) (free minimum L : Nat) : Prop :=
-  c.overhead + c.gzo + c.maxg + minimum + 2 * c.layer0 + free + L < W
+  (if c.ovSafe then 0 else c.overhead) + c.gzo + c.maxg + minimum + 2 * c.layer0 + free + L < W
 
 def Good (c : Core) (N : List Nat) (s : GS) : Prop :=
   OkG c s ∧ ∀ L ∈ N, Room c s.free s.minimum L
@@ -312,15 +315,26 @@ theorem fits_good (c : Core) (N : List Nat) (s : GS) (L : Nat) (hL : L ∈ N) (h
   refine ⟨?_, hroom⟩
   have hr := hroom L hL
   unfold fits at hf
-  simp only [decide_eq_true_eq] at hf
   unfold OkG at hok ⊢
   unfold Room W at hr
-  unfold wr at hf ⊢
+  unfold wr
   simp only
   right
-  rcases hok with ⟨h0, _⟩ | ⟨h1, _⟩
-  · omega
-  · omega
+  split at hf
+  · rename_i hv
+    simp only [hv, ↓reduceIte] at hr
+    simp only [decide_eq_true_eq] at hf
+    unfold wr subW at hf
+    rcases hok with ⟨h0, _⟩ | ⟨h1, _⟩
+    · omega
+    · omega
+  · rename_i hv
+    simp only [hv] at hr
+    simp only [decide_eq_true_eq] at hf
+    unfold wr at hf
+    rcases hok with ⟨h0, _⟩ | ⟨h1, _⟩
+    · omega
+    · omega
 
 theorem admit_good (c : Core) (N : List Nat) (L0 : Nat) (hL0 : L0 ∈ N) :
     ∀ (gpus : List Gpu) (i : Nat) (ws : List Nat),
@@ -337,21 +351,32 @@ theorem admit_good (c : Core) (N : List Nat) (L0 : Nat) (hL0 : L0 ∈ N) :
     rw [admit] at hs
     generalize hgz : (if ws.isEmpty then c.gzo else 0) = gzo at hs
     have hgzle : gzo ≤ c.gzo := by subst hgz; split <;> omega
-    by_cases hadm : g.free < admitNeed c g.minimum gzo
+    by_cases hadm : admitReject c g gzo = true
     · simp only [hadm, ↓reduceIte, List.mem_cons] at hs
       rcases hs with rfl | hs
       · exact ⟨Or.inl ⟨rfl, rfl⟩, hg⟩
       · exact ih (i + 1) ws hrest s hs
-    · simp only [hadm, ↓reduceIte, List.mem_cons] at hs
+    · have hadm' : admitReject c g gzo = false := by simpa using hadm
+      simp only [hadm', Bool.false_eq_true, ↓reduceIte, List.mem_cons] at hs
       rcases hs with rfl | hs
       · refine ⟨?_, hg⟩
         have hr := hg L0 hL0
         unfold Room W at hr
-        unfold admitNeed wr at hadm
+        unfold admitReject at hadm
         unfold OkG wr
         simp only
         right
-        omega
+        split at hadm
+        · rename_i hv
+          simp only [hv, ↓reduceIte] at hr
+          simp only [Bool.or_eq_true, decide_eq_true_eq, not_or, Nat.not_lt] at hadm
+          unfold wr subW at hadm
+          omega
+        · rename_i hv
+          simp only [hv] at hr
+          simp only [decide_eq_true_eq, Nat.not_lt] at hadm
+          unfold admitNeed wr at hadm
+          omega
       · exact ih (i + 1) (ws ++ [i]) hrest s hs
 
 theorem layerLoop_good (c : Core) (N : List Nat) : ∀ (Ls : List Nat) (i : Nat) (st : St),
